@@ -133,11 +133,11 @@ func init() {
 		}
 		run := func(text string) ([]int, error, *lx.Panic) { return runVia(text, 0) }
 		fam := &vf.Family{
-			Name:    "loop-shapes",
-			Bounds:  "every nesting of depth 0..2 (quick) / 0..3 (thorough) of the 10 tail-position constructs (do-last, let-body-last, let with empty / list-form bindings, if-then, if-else, cond clause, and-last, or-last, fn-body-last) around the recursive call x {self, 2-way mutual, 3-way mutual recursion} x 3 definition routes (fn forms written in the text; functions defined through a defn-style macro; whole program as an AST without source positions); iteration counts 3, 5, 50 (host stack depth at every iteration); the plain recursions and every single construct around a self call also run 150 000 iterations to completion (thorough: all shapes of nesting depth <=1, 2 000 000 iterations), thorough: additionally 20000 iterations under a 1 MiB stack limit",
-			Setup:   setup,
-			Timeout: 300e9,
-			N:       func(t string) int64 { tier = t; return int64(len(shapesOf())) },
+			Name:     "loop-shapes",
+			Bounds:   "every nesting of depth 0..2 (quick) / 0..3 (thorough) of the 10 tail-position constructs (do-last, let-body-last, let with empty / list-form bindings, if-then, if-else, cond clause, and-last, or-last, fn-body-last) around the recursive call x {self, 2-way mutual, 3-way mutual recursion} x 3 definition routes (fn forms written in the text; functions defined through a defn-style macro; whole program as an AST without source positions); iteration counts 3, 5, 50 (host stack depth at every iteration); the plain recursions and every single construct around a self call also run 150 000 iterations to completion (thorough: all shapes of nesting depth <=1, 2 000 000 iterations), thorough: additionally 20000 iterations under a 1 MiB stack limit",
+			Setup:    setup,
+			Timeout:  300e9,
+			N:        func(t string) int64 { tier = t; return int64(len(shapesOf())) },
 			Describe: func(i int64) string { s := shapesOf()[i]; return s.names() + ": " + s.program(50, false) },
 			Run: func(i int64, r *vf.Rec) {
 				s := shapesOf()[i]
@@ -200,9 +200,9 @@ func init() {
 		}
 		return &vf.Check{
 			ID: "C08", Level: "model_checking",
-			Rule: "every loop shape of the bounded space runs on the real EVAL with a Go builtin recording runtime.Callers at every iteration; depths at iterations 2..n must all be equal for n = 3, 5, 50 (and the loop must complete 20000 iterations under a reduced stack limit in the thorough tier; a fatal stack overflow is attributed to the shape by the worker supervisor); a negative control with the call in non-tail position must show growth; every case is non-trivial",
+			Rule:        "every loop shape of the bounded space runs on the real EVAL with a Go builtin recording runtime.Callers at every iteration; depths at iterations 2..n must all be equal for n = 3, 5, 50 (and the loop must complete 20000 iterations under a reduced stack limit in the thorough tier; a fatal stack overflow is attributed to the shape by the worker supervisor); a negative control with the call in non-tail position must show growth; every case is non-trivial",
 			Assumptions: []string{"iteration counts above those run are covered by the equal-depth argument: depth equal at every one of 50 consecutive iterations means the loop re-enters the same frame"},
-			Families: []*vf.Family{fam},
+			Families:    []*vf.Family{fam},
 		}
 	})
 }
